@@ -3,7 +3,7 @@ import ElvisVerif.Spec.Rfc9293
 /-!
 # C03 — TCP connections open, synchronise and close as RFC 9293 prescribes
 
-(stage 1: the concrete witnesses of the close defects on the model of the UNREPAIRED code)
+(stage 3: the witnesses of the three repaired close defects as regression theorems)
 -/
 namespace Elvis.Tcp
 namespace C03
@@ -77,7 +77,7 @@ theorem c03_regression_close_after_text :
       = some (.CloseWait, [1, 2, 3]) := by
   decide
 
-/-! ## F-C03-3: LAST-ACK does no ACK processing: the queue is never cleaned, the window never reopens -/
+/-! ## F-C03-3 (fixed): LAST-ACK did no ACK processing: the queue was never cleaned, the window never reopened -/
 
 /-- B's send window is 2 (the third segment of the handshake advertises it); B writes five
     bytes, two go out; A closes, B goes to CLOSE-WAIT and closes: LAST-ACK with three bytes still
@@ -87,23 +87,22 @@ def lastAckOps : List Op :=
    .inject .B (forge .B 16 1001 5001 2 []), .write .B [1, 2, 3, 4, 5], .emit .B, .close .A, .emit .A,
    .deliver .B 4, .close .B, .deliver .A 3, .emit .A, .emit .B, .deliver .B 5, .emit .B]
 
-/-- **F-C03-3.**  In LAST-ACK an acknowledgment only overwrites `SND.UNA`: acknowledged segments
-    stay on the retransmission queue and the send window is never updated.  Everything B sent
-    is acknowledged (`SND.UNA = SND.NXT`), the peer advertises 65535, yet `segments()` sends
-    nothing (it still counts the acknowledged two bytes against the old window of 2); after a
-    retransmission timeout it retransmits the acknowledged segment and still nothing new; a
-    further ACK from the peer leaves the TCB exactly as it was.  The three bytes and the FIN are
-    never sent: B stays in LAST-ACK, A in FIN-WAIT-2, for ever. -/
-theorem c03_lastack_stall_counterexample :
-    (tcbOf .B (Sys.run {} lastAckOps)).map (fun t => (t.state, t.outgoing.text)) = some (.LastAck, [3, 4, 5]) ∧
-    (tcbOf .B (Sys.run {} lastAckOps)).map (fun t => (t.snd.una.toNat, t.snd.nxt.toNat, t.snd.wnd.toNat))
-      = some (5003, 5003, 2) ∧
-    (tcbOf .B (Sys.run {} lastAckOps)).map (fun t => t.outgoing.retransmit.map (·.segment.text)) = some [[1, 2]] ∧
-    lastEmit (Sys.run {} lastAckOps) = some [] ∧
-    (lastEmit (Sys.run {} (lastAckOps ++ [.tick .B 150, .emit .B]))).map (·.map (·.text)) = some [[1, 2]] ∧
-    tcbOf .B (Sys.run {} (lastAckOps ++ [.tick .B 150, .emit .B, .deliver .A 6, .deliver .A 7, .emit .A, .deliver .B 8, .emit .B]))
-      = tcbOf .B (Sys.run {} (lastAckOps ++ [.tick .B 150, .emit .B])) ∧
-    stateOf .A (Sys.run {} (lastAckOps ++ [.tick .B 150, .emit .B, .deliver .A 6, .deliver .A 7])) = some .FinWait2 := by
+/-- F-C03-3 (fixed, repo 815f3de2).  Before the repair an acknowledgment arriving in LAST-ACK
+    only overwrote `SND.UNA`: with everything sent acknowledged and the peer advertising 65535,
+    B still held the acknowledged two bytes on its retransmission queue, counted them against
+    the old window of 2, sent nothing, retransmitted the acknowledged segment at every timeout
+    and stayed in LAST-ACK — the peer in FIN-WAIT-2 — for ever
+    (`c03_lastack_stall_counterexample`, proved by `decide` in commit eaf6dd5 on the model of the
+    code with only the first two repairs).  Now the ACK empties the queue and opens the window,
+    the three bytes and the FIN (sequence number 5006) go out, the peer delivers all five bytes
+    before it sees the FIN, and B is released by the final ACK. -/
+theorem c03_regression_lastack_progress :
+    (lastEmit (Sys.run {} lastAckOps)).map (·.map fun s => (s.hdr.ctl.toNat, s.hdr.seq.toNat, s.text))
+      = some [(16, 5003, [3, 4, 5]), (17, 5006, [])] ∧
+    (tcbOf .A (Sys.run {} (lastAckOps ++ [.deliver .A 6, .deliver .A 7, .deliver .A 8]))).map
+      (fun t => (t.state, t.incoming.text)) = some (.TimeWait, [1, 2, 3, 4, 5]) ∧
+    stateOf .B (Sys.run {} (lastAckOps ++ [.deliver .A 6, .deliver .A 7, .deliver .A 8, .emit .A,
+      .deliver .B 9, .deliver .B 10])) = none := by
   decide
 
 end C03
